@@ -126,13 +126,14 @@ func (c *client) PutMany(ctx context.Context, records []kvs.Record) error {
 
 func (c *client) CasByVersion(ctx context.Context, record kvs.Record) (kvs.Record, error) {
 	key := rKey(record.Key)
-	err := c.rdb.Watch(ctx, func(tx *redis.Tx) error {
+	expVersion := record.Version
+	txf := func(tx *redis.Tx) error {
 		val, err := tx.Get(ctx, key).Result()
 		if err != nil {
 			return checkErr(err)
 		}
 		r := db2rec(cast.StringToByteArray(val))
-		if r.Version != record.Version {
+		if r.Version != expVersion {
 			return errors.ErrConflict
 		}
 		record.Version = ulidutils.NewID()
@@ -142,7 +143,13 @@ func (c *client) CasByVersion(ctx context.Context, record kvs.Record) (kvs.Recor
 			return err2
 		})
 		return err
-	}, key)
+	}
+	err := c.rdb.Watch(ctx, txf, key)
+	for err == redis.TxFailedErr && ctx.Err() == nil {
+		// the key was changed between the read and the write (the optimistic lock failed):
+		// decide again on the new state instead of returning the internal error
+		err = c.rdb.Watch(ctx, txf, key)
+	}
 	return record, err
 }
 
